@@ -91,6 +91,7 @@ class State:
         self.fn_stack = []
         self.results = {}         # res n -> (recv, name, args, tc)
         self.decided = {}         # cond term -> truth (path-local memo)
+        self.retref = []          # per inlined call: does the callee return a reference
 
     def clone(self):
         s = State.__new__(State)
@@ -106,6 +107,7 @@ class State:
         s.fn_stack = list(self.fn_stack)
         s.results = dict(self.results)
         s.decided = dict(self.decided)
+        s.retref = list(self.retref)
         return s
 
     def ev(self, *e):
@@ -129,11 +131,32 @@ class State:
         return any(g[3] for g in self.guards)
 
 
+def opt_content(v):
+    """(has_value, value) of an optional whose construction is visible on the path, else None"""
+    if isinstance(v, tuple) and v:
+        if v[0] == 'global' and v[1] == 'nullopt':
+            return (False, None)
+        if v[0] == 'ctor' and typeclass(v[1]) == 'optional':
+            if len(v[2]) == 0:
+                return (False, None)
+            if len(v[2]) == 1:
+                if v[2][0] == ('global', 'nullopt'):
+                    return (False, None)
+                return (True, v[2][0])
+    return None
+
+
 def fold_cmp(v):
     """comparison of two compile-time constants (enumerators, integer / bool literals) -> bool, else None"""
     if not (isinstance(v, tuple) and v and v[0] == 'cmp'):
         return None
     a, b = v[2], v[3]
+    for x, y in ((a, b), (b, a)):
+        if isinstance(x, tuple) and x and x[0] == 'addr' and y == ('int', 0):
+            if v[1] == '==':
+                return False
+            if v[1] == '!=':
+                return True
 
     def const(x):
         return isinstance(x, tuple) and x and x[0] in ('enum', 'int', 'bool')
@@ -173,7 +196,7 @@ def root_of(t):
         elif k in ('deref', 'optval'):
             through_ptr = True
             t = t[1]
-        elif k in ('idx', 'hasval'):
+        elif k in ('idx', 'hasval', 'addr'):
             t = t[1]
         elif k == 'q':
             t = t[2]
@@ -191,7 +214,7 @@ def root_of(t):
             t = t[2]
         elif k == 'res':
             return ('res', t[1])
-        elif k == 'lv' and len(t) == 5:
+        elif k == 'lv' and len(t) == 5 and t[4] == 'param':
             return ('param', t[1])
         elif k in ('var', 'lv'):
             return ('heap', None) if through_ptr else ('local', t[1])
@@ -249,7 +272,7 @@ class Evaluator:
         k = loc[0]
         if k in ('int', 'bool', 'enum', 'ctor', 'now', 'rng', 'pred', 'res', 'adv', 'add', 'bin', 'cmp', 'not',
                  'unk', 'global', 'cast', 'hasval', 'optval', 'float', 'str', 'pair', 'undef', 'some', 'lv', 'ld', 'ma',
-                 'fn', 'void', 'default', 'un', 'mcall', 'fncall', 'randdev', 'rng-state', 'iota', 'lambda'):
+                 'fn', 'void', 'default', 'un', 'mcall', 'fncall', 'randdev', 'rng-state', 'iota', 'lambda', 'addr'):
             if k == 'lv' and loc in st.store:
                 return st.store[loc]
             return loc
@@ -257,6 +280,8 @@ class Evaluator:
             return loc          # value-returning query (find/begin/end/size...): already a value
         if loc in st.store:
             v = st.store[loc]
+        elif k == 'fld' and loc[1] in st.store and self.agg_field(st.store[loc[1]], loc[2]) is not None:
+            return self.agg_field(st.store[loc[1]], loc[2])
         elif k == 'var':
             v = ('undef', loc)
         elif k == 'fld' and isinstance(loc[1], tuple) and loc[1][0] in ('idx', 'deref') and \
@@ -271,6 +296,19 @@ class Evaluator:
             if r[0] in ('field', 'res', 'this', 'heap'):
                 st.ev('rd', loc, site_of(n, st) if n is not None else None)
         return v
+
+    def agg_field(self, v, name):
+        """field of an aggregate / simple struct value constructed on the path: T{a, b} or T(a, b) with a member-wise constructor"""
+        if not (isinstance(v, tuple) and v and v[0] == 'ctor'):
+            return None
+        tname = (v[1] or '').split('::')[-1].split('<')[0].strip()
+        rec = self.cm.records.get(tname)
+        if rec is None:
+            return None
+        names = [f.name for f in rec.fields]
+        if name in names and len(v[2]) == len(names):
+            return v[2][names.index(name)]
+        return None
 
     def write(self, st, loc, val, n, how='='):
         st.store[loc] = val
@@ -421,6 +459,8 @@ class Evaluator:
 
     def project(self, st, b, name):
         """fld with simplification through known results (emplace / make_pair)"""
+        if isinstance(b, tuple) and b and b[0] == 'addr':
+            b = b[1]                 # p->f with p = &x
         if isinstance(b, tuple):
             if b[0] == 'pair' and name in ('first', 'second'):
                 return b[1] if name == 'first' else b[2]
@@ -467,6 +507,9 @@ class Evaluator:
                 else:
                     yield st3, self.arith(op, lt, rt)
 
+    def e_CompoundAssignOperator(self, n, st):
+        yield from self.e_BinaryOperator(n, st)
+
     def arith(self, op, a, b):
         if op in ('+', '-') and isinstance(b, tuple) and b[0] == 'int':
             k = b[1] if op == '+' else -b[1]
@@ -496,10 +539,11 @@ class Evaluator:
             return
         if op == '*':
             for st2, t in self.rv(sub, st):
-                yield st2, ('deref', t)
+                yield st2, (t[1] if isinstance(t, tuple) and t and t[0] == 'addr' else ('deref', t))
             return
         if op == '&':
-            yield from self.eval(sub, st)
+            for st2, t in self.eval(sub, st):
+                yield st2, ('addr', t)
             return
         for st2, t in self.rv(sub, st):
             yield st2, ('un', op, t)
@@ -513,8 +557,12 @@ class Evaluator:
         elems = [c for c in n.get('inner', []) if c.get('kind')]
         scalar = qt(n) in ('unsigned long', 'long', 'int', 'unsigned int', 'bool', 'float', 'double', 'unsigned long long',
                            'long long', 'char', 'short', 'unsigned short', 'unsigned char')
+        tname = (qt(n) or '').split('::')[-1].split('<')[0].strip()
         for st2, args in self.eval_args(elems, st):
-            if scalar and len(args) <= 1:
+            if len(args) == 1 and isinstance(args[0], tuple) and args[0] and args[0][0] in ('enum', 'int', 'bool') \
+                    and tname not in self.cm.records:
+                yield st2, args[0]          # brace-initialised scalar / enum: the value itself
+            elif scalar and len(args) <= 1:
                 yield st2, (args[0] if args else ('int', 0))
             else:
                 yield st2, ('ctor', qt(n), tuple(args))
@@ -576,7 +624,9 @@ class Evaluator:
         if name in ('operator*', 'operator->') and len(args) == 1:
             if t0 == 'optional':
                 for st2, loc in self.eval(a0, st):
-                    yield st2, ('optval', self.load(st2, loc, n))
+                    cur = self.load(st2, loc, n)
+                    known = opt_content(cur)
+                    yield st2, (known[1] if known is not None and known[0] else ('optval', cur))
                 return
             for st2, itv in self.rv(a0, st):
                 st2.ev('use', itv, 'deref', site_of(n, st2))
@@ -791,11 +841,12 @@ class Evaluator:
         s = site_of(n, st)
         if tc == 'optional':
             cur = self.load(st, recv, n)
+            known = opt_content(cur)
             if name == 'has_value':
-                yield st, ('hasval', cur)
+                yield st, (('bool', known[0]) if known is not None else ('hasval', cur))
                 return
             if name in ('value', 'operator*', 'operator->'):
-                yield st, ('optval', cur)
+                yield st, (known[1] if known is not None and known[0] else ('optval', cur))
                 return
             if name == 'reset':
                 self.write(st, recv, ('global', 'nullopt'), n)
@@ -926,8 +977,12 @@ class Evaluator:
                     st2.env[p['id']] = loc
             st2.ev('enter', m.qname, site_of(n, st2), m.key())
             st2.fn_stack.append(m.qname)
+            rt = (m.node.get('type', {}).get('qualType', '') or '')
+            rt = rt.rsplit('->', 1)[1] if '->' in rt else rt.split('(')[0]
+            st2.retref = st2.retref + [rt.strip().endswith('&')]
             for st3, flow in self.exec(m.body, st2):
                 st3.fn_stack.pop()
+                st3.retref = st3.retref[:-1]
                 st3.ev('leave', m.qname)
                 st3.env = dict(saved_env)
                 if flow and flow[0] == 'ret':
@@ -967,6 +1022,12 @@ class Evaluator:
             folded = fold_cmp(v)
             if folded is not None:
                 yield st2, folded
+                continue
+            if isinstance(v, tuple) and v and v[0] == 'addr':
+                yield st2, True          # the address of an object is never null
+                continue
+            if v == ('int', 0):
+                yield st2, False
                 continue
             if isinstance(v, tuple) and v[0] == 'not':
                 v = v[1]
@@ -1123,7 +1184,8 @@ class Evaluator:
                 st2.ev('ret', ('bool', truth), site_of(n, st2))
                 yield st2, ('ret', ('bool', truth))
             return
-        for st2, t in self.rv(inner[0], st):
+        by_ref = bool(st.retref and st.retref[-1]) and inner[0].get('valueCategory') in ('lvalue', 'xvalue')
+        for st2, t in (self.eval(inner[0], st) if by_ref else self.rv(inner[0], st)):
             st2.ev('ret', t, site_of(n, st2))
             yield st2, ('ret', t)
 
@@ -1289,7 +1351,7 @@ class Evaluator:
             if not isinstance(x, dict):
                 return
             k = x.get('kind')
-            if k == 'BinaryOperator' and (x.get('opcode') == '=' or x.get('opcode', '').endswith('=') and x.get('opcode') not in ('==', '!=', '<=', '>=')):
+            if k in ('BinaryOperator', 'CompoundAssignOperator') and (x.get('opcode') == '=' or x.get('opcode', '').endswith('=') and x.get('opcode') not in ('==', '!=', '<=', '>=')):
                 tgt(x['inner'][0])
             elif k == 'UnaryOperator' and x.get('opcode') in ('++', '--'):
                 tgt(x['inner'][0])
@@ -1318,7 +1380,7 @@ class Evaluator:
             if b is not None and isinstance(b, tuple) and b[0] in ('var', 'p'):
                 cur = st.store.get(b)
                 from_param = b[0] == 'p' or (cur is not None and root_of(cur)[0] == 'param')
-                st.store[b] = ('lv', b[1], lid, tag, 'param') if from_param else ('lv', b[1], lid, tag)
+                st.store[b] = ('lv', b[1], lid, tag, 'param') if from_param else ('lv', b[1], lid, tag, b[2] if len(b) > 2 else None)
 
     def do_loop(self, n, st, kind, init, cond, inc, body, range_info=None):
         """summarise a loop: one arbitrary iteration per body path from a havocked state; continue after it
@@ -1530,6 +1592,8 @@ def show(t, depth=0):
         return '%s[%s]' % (s(t[1]), s(t[2]))
     if k == 'deref':
         return '*%s' % s(t[1])
+    if k == 'addr':
+        return '&%s' % s(t[1])
     if k == '$':
         return '$' + t[1]
     if k == 'var':
